@@ -14,6 +14,9 @@ LIGHT = ["C", "H", "N", "O", "S", "P"]
 OTHER = ["Se", "Cl", "Br", "Fe"]
 
 
+
+RULE_EXTRA = ('exact multinomial expansion for compositions of <= 12 atoms (TLC enumerates the isotopologues); completeness under min_abundance_threshold (large molecules); at most max_isotopes peaks; masses on the resolution grid, one peak per mass; lightest peak of the neutron-offset mass view.')
+
 def pattern(p):
     return [{"m": fix(m), "a": {k: v for k, v in count8(max(a, 0.0)).items() if k != "neg"}} for m, a in p]
 
